@@ -107,6 +107,37 @@ def preamble():
     d.get_provn()
 
 
+_BIG = {}
+
+
+def export_big_decoy(name, variant):
+    """a larger other document (150 distinct values, ending - variant 0 - with 1.0 / 0.0 / -0.0 / an instant in UTC
+    or - variant 1 - with True / False / the same instant at +05:30) goes through the exporter family of `name`:
+    whatever bounded memo the exporter keeps is turned over, and what it last saw differs between the variants"""
+    import datetime
+    if variant not in _BIG:
+        d = ProvDocument()
+        d.add_namespace("ex", "http://big.example/")
+        vals = [("ex:k%d" % i, "value %d" % i) for i in range(150)]
+        if variant == 0:
+            vals += [("ex:f1", 1.0), ("ex:f0", 0.0), ("ex:fn", -0.0),
+                     ("ex:t", datetime.datetime(2014, 6, 7, 2, 39, 10, tzinfo=datetime.timezone.utc))]
+        else:
+            tz = datetime.timezone(datetime.timedelta(hours=5, minutes=30))
+            vals += [("ex:f1", True), ("ex:f0", False), ("ex:t", datetime.datetime(2014, 6, 7, 8, 9, 10, tzinfo=tz))]
+        d.entity("ex:big", vals)
+        _BIG[variant] = d
+    d = _BIG[variant]
+    if "provn" in name:
+        d.get_provn()
+    elif name.startswith("json"):
+        d.serialize(format="json")
+    elif name.startswith("xml"):
+        d.serialize(format="xml")
+    elif name.startswith("dot"):
+        _dot(d)
+
+
 def full_obs(doc):
     return (observe.dobs_ordered(doc), observe.nsobs(doc))
 
@@ -309,6 +340,8 @@ class C13(spec.Spec):
         hh = ("seq", list(hist) if hist and hist[0] == "rich" else self.ops(hist), list(seq))
         out.evaluations += 1
         last = None
+        if len(seq) == 1:
+            export_big_decoy(seq[0], 0)
         for k, name in enumerate(seq):
             last = call(name, doc)
             out.transitions += 1
@@ -328,6 +361,7 @@ class C13(spec.Spec):
                 return
         name = seq[-1]
         if len(seq) == 1:
+            export_big_decoy(name, 1)
             again = call(name, doc)
             if again != last:
                 out.violation("export-not-repeatable", name,
